@@ -54,6 +54,27 @@ try:
             if os.path.isdir(os.path.join(wt, c)):
                 demo_dir = c
                 break
+    # the demo's package clause overrides a wrong guess
+    for f in demos:
+        if f.endswith("_test.go"):
+            pm = re.search(r"^package (\w+)", open(f).read(), re.M)
+            if pm:
+                pkg = re.sub(r"_test$", "", pm.group(1))
+                def pkgname(dirpath):
+                    for g in glob.glob(os.path.join(wt, dirpath, "*.go")):
+                        if not g.endswith("_test.go"):
+                            mm = re.search(r"^package (\w+)", open(g).read(), re.M)
+                            if mm:
+                                return mm.group(1)
+                    return None
+                if pkgname(demo_dir) != pkg:
+                    cands2 = ["."] + sorted(set(os.path.dirname(t) or "." for t in touched))
+                    cands2 += [os.path.relpath(dp, wt) for dp, dn, fn in os.walk(wt) if os.path.basename(dp) == pkg]
+                    for c in cands2:
+                        if pkgname(c) == pkg:
+                            demo_dir = c
+                            break
+            break
     res["demo_dir"] = demo_dir
     demo_tests = [f for f in demos if f.endswith("_test.go")]
     other = [f for f in demos if not f.endswith("_test.go")]
